@@ -4,7 +4,9 @@ import CaoModel.Compiler
 /-!
 # Reference semantics of the card language (the SPEC of C01 / C06 / C08 / C09 / C18)
 
-A definitional, fuel-indexed big-step interpreter that works directly on the source cards:
+A definitional, fuel-indexed big-step interpreter (total: every definition is structurally
+recursive; the only recursion over `fuel` is the pair `eval`/`exec`, list traversals, loops and
+host functions are higher-order helpers that receive the already fuel-applied evaluator) that works directly on the source cards:
 no bytecode, no stack slots, no upvalues. Local variables are reference cells in a store
 (closures capture the cells of the enclosing scopes), globals are named, tables are
 insertion-ordered association lists keyed by the deep value of the key, calls bind the
@@ -52,6 +54,15 @@ structure St where
   cells : Array Val := #[]
   globals : List (String × Val) := []
   log : List String := []
+  /-- a value-producing card was executed in statement position (its value was discarded) -/
+  stmtValue : Bool := false
+  /-- number of script-function calls so far (bounds the work of the evaluator: the machine
+      needs at least three instructions per call, so a run with more calls than `callLimit`
+      cannot complete within the budget the correspondence check uses) -/
+  calls : Nat := 0
+  /-- a call supplied fewer arguments than the callee declares (reported as `MissingArgument`;
+      the implementation lets the callee take the caller's most recent values: known finding K4) -/
+  fewArgs : Bool := false
 
 /-- how an evaluation ends -/
 inductive Res (α : Type) where
@@ -163,13 +174,271 @@ def bindArgs (s : St) (params : List String) (args : List Val) : St × List (Str
     let (s', c) := newCell acc.1 a
     (s', acc.2 ++ [(p, c)])) (s, [])
 
+def readVar (cx : Ctx) (env : Env) (s : St) (name : String) : St × Env × Res Val :=
+  let (v, props) := match name.splitOn "." with
+    | [] => ("", [])
+    | v :: ps => (v, ps.filter (fun (q : String) => !q.isEmpty))
+  if v.isEmpty then (s, env, .unspecified "empty variable name (compile error)") else
+  let base : Res Val :=
+    match lookupEnv env v with
+    | some c => .ok (s.cells[c]?.getD .nil)
+    | none =>
+      match lookupEnv cx.outer v with
+      | some c => .ok (s.cells[c]?.getD .nil)
+      | none =>
+        match s.globals.find? (fun (p : String × Val) => p.1 == v) with
+        | some (_, x) => .ok x
+        | none => .unspecified "read of a global that was never written"
+  match base with
+  | .ok x =>
+    let r := props.foldl (fun (acc : St × Res Val) (p : String) =>
+      match acc with
+      | (s, .ok tv) =>
+        match asTable s tv with
+        | some (_, es) =>
+          let (s, k) := newObj s (.str p.toUTF8.toList)
+          (s, .ok (tableGet s es k))
+        | none => (s, .err .invalidArgument)
+      | other => other) (s, .ok x)
+    (r.1, env, r.2)
+  | r => (s, env, r)
+
+/-- evaluate a list of cards left to right with the evaluator `ev` -/
+def evalListWith (ev : Env → St → Card → St × Env × Res Val) (env : Env) (s : St) :
+    List Card → St × Env × Res (List Val)
+  | [] => (s, env, .ok [])
+  | c :: cs =>
+    match ev env s c with
+    | (s, env, .ok v) =>
+      match evalListWith ev env s cs with
+      | (s, env, .ok vs) => (s, env, .ok (v :: vs))
+      | r => r
+    | (s, env, .ret v) => (s, env, .ret v)
+    | (s, env, .exit) => (s, env, .exit)
+    | (s, env, .err e) => (s, env, .err e)
+    | (s, env, .unspecified w) => (s, env, .unspecified w)
+    | (s, env, .outOfFuel) => (s, env, .outOfFuel)
+
+/-- execute a list of statement cards with the executor `ex` -/
+def execListWith (ex : Env → St → Card → St × Env × Res Unit) (env : Env) (s : St) :
+    List Card → St × Env × Res Unit
+  | [] => (s, env, .ok ())
+  | c :: cs =>
+    match ex env s c with
+    | (s, env, .ok ()) => execListWith ex env s cs
+    | r => r
+
+/-- how a function body is run: context of the callee, initial scopes, state, cards -/
+abbrev RunBody := Ctx → Env → St → List Card → St × Env × Res Unit
+/-- how a host function is called -/
+abbrev CallNat := St → String → List Val → St × Res Val
+
+/-- see `St.calls` -/
+def callLimit : Nat := 7000
+
+/-- call a function of the program (`.inl idx`) or a closure (`.inr`) with evaluated arguments -/
+def callFnWith (rb : RunBody) (fns : Array FnDef) (s : St)
+    (f : Sum Nat (List String × List Card × Env × Nat)) (args : List Val) : St × Res Val :=
+  let (params, cards, outer, home) := match f with
+    | .inl i => match fns[i]? with
+      | some d => (d.params, d.cards, ([] : Env), i)
+      | none => ([], [], [], 0)
+    | .inr (ps, cs, e, h) => (ps, cs, e, h)
+  if s.calls ≥ callLimit then (s, .outOfFuel) else
+  let s := { s with calls := s.calls + 1 }
+  let (s, scope) := bindArgs s params args
+  let cx' : Ctx := { fns := fns, home := home, outer := outer }
+  match rb cx' [scope] s cards with
+  | (s, _, .ok ()) => (s, .ok .nil)
+  | (s, _, .ret v) => (s, .ok v)
+  | (s, _, .exit) => (s, .exit)
+  | (s, _, .err e) => (s, .err e)
+  | (s, _, .unspecified w) => (s, .unspecified w)
+  | (s, _, .outOfFuel) => (s, .outOfFuel)
+
+def callValueWith (rb : RunBody) (cn : CallNat) (fns : Array FnDef) (s : St) (fv : Val) (args : List Val) : St × Res Val :=
+  match fv with
+  | .obj a =>
+    match s.objs[a]? with
+    | some (.fn i) =>
+      match fns[i]? with
+      | some d =>
+        if args.length < d.params.length then ({ s with fewArgs := true }, .err .missingArgument)
+        else if d.params.length != args.length then (s, .unspecified "dynamic call with the wrong number of arguments")
+        else callFnWith rb fns s (.inl i) args
+      | none => (s, .unspecified "bad function index")
+    | some (.closure ps cs e h) =>
+      if args.length < ps.length then ({ s with fewArgs := true }, .err .missingArgument)
+      else if ps.length != args.length then (s, .unspecified "dynamic call with the wrong number of arguments")
+      else callFnWith rb fns s (.inr (ps, cs, e, h)) args
+    | some (.native n) => cn s n args
+    | _ => (s, .err .invalidArgument)
+  | _ => (s, .err .invalidArgument)
+
+/-- host functions (the harness' fixed family and the stdlib natives, at specification level).
+    `d` bounds the nesting of host functions called *by* host functions (`callback`, `__sort`,
+    `__min`, `__max` with a host function as their function argument); when it is exhausted the
+    result is `outOfFuel` -/
+def callNativeD (rb : RunBody) (fns : Array FnDef) : Nat → CallNat
+  | 0, s, _, _ => (s, .outOfFuel)
+  | d+1, s, name, args =>
+    let callValue := callValueWith rb (callNativeD rb fns d) fns
+    let wrap (r : St × Res Val) : St × Res Val := match r with
+      | (s, .err e) => (s, .err (.taskFailure name e))
+      | other => other
+    let arity : Option Nat := match name with
+      | "__min" | "__max" | "__sort" | "sum2" | "callback" => some 2
+      | "__to_array" | "log" | "strlen" | "mktable" => some 1
+      | "three" => some 3 | "four" => some 4 | "fail" => some 0
+      | _ => none
+    match arity with
+    | none => (s, .err .procedureNotFound)
+    | some n =>
+    if args.length != n then (s, .unspecified "native called with the wrong number of arguments") else
+    let toI (s : St) (v : Val) : Int64 := OVal.toI64 F (deepV s v)
+    match name, args with
+    | "log", [v] => ({ s with log := s.log ++ ["log " ++ (deepV s v).toTok] }, .ok .nil)
+    | "sum2", [a, b] =>
+      ({ s with log := s.log ++ ["sum2 " ++ toString (toI s a).toInt ++ " " ++ toString (toI s b).toInt] },
+       .ok (.int (toI s a + toI s b)))
+    | "fail", [] => wrap (s, .err .invalidArgument)
+    | "strlen", [v] =>
+      match v with
+      | .obj a => match s.objs[a]? with
+        | some (.str b) => (s, .ok (.int (Int64.ofNat b.length)))
+        | _ => wrap (s, .err .invalidArgument)
+      | _ => wrap (s, .err .invalidArgument)
+    | "three", [a, b, c] =>
+      ({ s with log := s.log ++ ["three " ++ (deepV s a).toTok ++ " " ++ (deepV s b).toTok ++ " " ++ (deepV s c).toTok] }, .ok a)
+    | "four", [a, b, c, d] =>
+      ({ s with log := s.log ++ ["four " ++ (deepV s a).toTok ++ " " ++ (deepV s b).toTok ++ " " ++ (deepV s c).toTok ++ " " ++ (deepV s d).toTok] }, .ok d)
+    | "mktable", [v] =>
+      let (s, k) := newObj s (.str "n".toUTF8.toList)
+      let (s, t) := newObj s (.table [(k, v)])
+      (s, .ok t)
+    | "callback", [f, x] =>
+      match wrap (callValue s f [x]) with
+      | (s, .ok r) => ({ s with log := s.log ++ ["callback -> " ++ (deepV s r).toTok] }, .ok r)
+      | other => other
+    | "__to_array", [t] =>
+      match asTable s t with
+      | none => (s, .ok t)
+      | some (_, es) =>
+        let (s, r) := newObj s (.table (es.zipIdx.map (fun (e, i) => (Val.int (Int64.ofNat i), e.2))))
+        (s, .ok r)
+    | "__sort", [t, keyFn] =>
+      match asTable s t with
+      | none => (s, .ok t)
+      | some (_, es) =>
+        let keyed := es.foldl (fun (acc : St × Res (List (Val × Val × Val))) (k, v) =>
+          match acc with
+          | (s, .ok l) =>
+            match wrap (callValue s keyFn [v, k]) with
+            | (s, .ok key) => (s, .ok (l ++ [(key, k, v)]))
+            | (s, .ret v) => (s, .ret v) | (s, .exit) => (s, .exit) | (s, .err e) => (s, .err e)
+            | (s, .unspecified w) => (s, .unspecified w) | (s, .outOfFuel) => (s, .outOfFuel)
+          | other => other) (s, .ok [])
+        match keyed with
+        | (s, .ok l) =>
+          let sorted := l.mergeSort (fun a b => match OVal.vcmp F (deepV s a.1) (deepV s b.1) with
+            | some .gt => false | _ => true)
+          let (s, r) := newObj s (.table (sorted.foldl (fun es (_, k, v) => tableSet s es k v) []))
+          (s, .ok r)
+        | (s, .ret v) => (s, .ret v) | (s, .exit) => (s, .exit) | (s, .err e) => (s, .err e)
+        | (s, .unspecified w) => (s, .unspecified w) | (s, .outOfFuel) => (s, .outOfFuel)
+    | nm, [t, keyFn] =>
+      if nm != "__min" && nm != "__max" then (s, .err .procedureNotFound) else
+      match asTable s t with
+      | none => (s, .ok t)
+      | some (_, es) =>
+        match es with
+        | [] => (s, .ok .nil)
+        | _ =>
+          let keyed := es.foldl (fun (acc : St × Res (List (Val × Val × Val))) (k, v) =>
+            match acc with
+            | (s, .ok l) =>
+              match wrap (callValue s keyFn [v, k]) with
+              | (s, .ok key) => (s, .ok (l ++ [(key, k, v)]))
+              | (s, .ret v) => (s, .ret v) | (s, .exit) => (s, .exit) | (s, .err e) => (s, .err e)
+              | (s, .unspecified w) => (s, .unspecified w) | (s, .outOfFuel) => (s, .outOfFuel)
+            | other => other) (s, .ok [])
+          match keyed with
+          | (s, .ok l) =>
+            -- the first entry whose key is strictly better than every earlier best
+            let best := l.foldl (fun (b : Option (Val × Val × Val)) e =>
+              match b with
+              | none => some e
+              | some b =>
+                let better := if nm == "__min" then OVal.vlt F (deepV s e.1) (deepV s b.1)
+                              else OVal.vlt F (deepV s b.1) (deepV s e.1)
+                if better then some e else some b) none
+            match best with
+            | some (_, k, v) =>
+              let (s, ks) := newObj s (.str "key".toUTF8.toList)
+              let (s, vs) := newObj s (.str "value".toUTF8.toList)
+              let (s, row) := newObj s (.table [(ks, k), (vs, v)])
+              (s, .ok row)
+            | none => (s, .ok .nil)
+          | (s, .ret v) => (s, .ret v) | (s, .exit) => (s, .exit) | (s, .err e) => (s, .err e)
+          | (s, .unspecified w) => (s, .unspecified w) | (s, .outOfFuel) => (s, .outOfFuel)
+    | _, _ => (s, .err .procedureNotFound)
+
+/-- the iterations of `Repeat`: `counter < n` is re-evaluated with the language's `<` before
+    every iteration; `body scope s` executes the body in the loop's scope -/
+def repeatLoop (body : List (String × Nat) → St → St × Env × Res Unit) (i : Option String) (nv : Val) :
+    Nat → Int64 → St → St × Res Unit
+  | 0, _, s => (s, .outOfFuel)
+  | gas+1, k, s =>
+    if OVal.vlt F (.int k) (deepV s nv) then
+      let (s, scope) := match i with
+        | some var => let (s, c) := newCell s (.int k); (s, [(var, c)])
+        | none => (s, [])
+      match body scope s with
+      | (s, _, .ok ()) => repeatLoop body i nv gas (k + 1) s
+      | (s, _, .ret v) => (s, .ret v)
+      | (s, _, .exit) => (s, .exit)
+      | (s, _, .err e) => (s, .err e)
+      | (s, _, .unspecified w) => (s, .unspecified w)
+      | (s, _, .outOfFuel) => (s, .outOfFuel)
+    else (s, .ok ())
+
+/-- the iterations of `ForEach` over the table object `a` -/
+def forEachLoop (body : List (String × Nat) → St → St × Env × Res Unit) (i k v : Option String) (a : Nat) :
+    Nat → Nat → St → St × Res Unit
+  | 0, _, s => (s, .outOfFuel)
+  | gas+1, idx, s =>
+    -- the table is looked at afresh before every iteration
+    match s.objs[a]? with
+    | some (.table es) =>
+      match es[idx]? with
+      | none => (s, .ok ())
+      | some (key, val) =>
+        let bindOne (acc : St × List (String × Nat)) (nm : Option String) (x : Val) :=
+          match nm with
+          | some n => let (s, c) := newCell acc.1 x; (s, acc.2 ++ [(n, c)])
+          | none => acc
+        let acc := bindOne (s, []) v val
+        let acc := bindOne acc k key
+        let acc := bindOne acc i (.int (Int64.ofNat idx))
+        match body acc.2 acc.1 with
+        | (s, _, .ok ()) => forEachLoop body i k v a gas (idx + 1) s
+        | (s, _, .ret v) => (s, .ret v)
+        | (s, _, .exit) => (s, .exit)
+        | (s, _, .err e) => (s, .err e)
+        | (s, _, .unspecified w) => (s, .unspecified w)
+        | (s, _, .outOfFuel) => (s, .outOfFuel)
+    | _ => (s, .err .assertionError)
+
 mutual
   /-- evaluate a value-producing card -/
-  partial def eval (cx : Ctx) (fuel : Nat) (env : Env) (s : St) (c : Card) : St × Env × Res Val :=
+  def eval (cx : Ctx) (fuel : Nat) (env : Env) (s : St) (c : Card) : St × Env × Res Val :=
     match fuel with
     | 0 => (s, env, .outOfFuel)
     | fuel+1 =>
     let ev := eval cx fuel
+    let evalList := evalListWith (eval cx fuel)
+    let rb : RunBody := fun cx' env s cards => execListWith (exec cx' fuel) env s cards
+    let callNative : CallNat := callNativeD rb cx.fns (fuel + 8)
     let bin2 (a b : Card) (k : St → Val → Val → St × Res Val) : St × Env × Res Val :=
       match ev env s a with
       | (s, env, .ok va) =>
@@ -236,7 +505,7 @@ mutual
           | none => (s, env, .ok .nil)
         | none => (s, env, .err .invalidArgument)
       | r => r
-    | .readVar name => readVar cx (fuel+1) env s name
+    | .readVar name => readVar cx env s name
     | .function name =>
       match resolve cx.fns cx.home name with
       | some i => let (s, v) := newObj s (.fn i); (s, env, .ok v)
@@ -246,14 +515,15 @@ mutual
       let (s, v) := newObj s (.closure params cards (env ++ cx.outer) cx.home)
       (s, env, .ok v)
     | .call name args =>
-      match evalList cx fuel env s args with
+      match evalList env s args with
       | (s, env, .ok vs) =>
         match resolve cx.fns cx.home name with
         | some i =>
           match cx.fns[i]? with
           | some f =>
+            if vs.length < f.params.length then ({ s with fewArgs := true }, env, .err .missingArgument) else
             if vs.length != f.params.length then (s, env, .unspecified "arity mismatch in a static call") else
-            let (s, r) := callFn cx fuel s (.inl i) vs
+            let (s, r) := callFnWith rb cx.fns s (.inl i) vs
             (s, env, r)
           | none => (s, env, .unspecified "bad function index")
         | none => (s, env, .unspecified "unresolved function (compile error)")
@@ -263,10 +533,10 @@ mutual
       | (s, env, .unspecified w) => (s, env, .unspecified w)
       | (s, env, .outOfFuel) => (s, env, .outOfFuel)
     | .dynamicCall args f =>
-      match evalList cx fuel env s args with
+      match evalList env s args with
       | (s, env, .ok vs) =>
         match ev env s f with
-        | (s, env, .ok fv) => let (s, r) := callValue cx fuel s fv vs; (s, env, r)
+        | (s, env, .ok fv) => let (s, r) := callValueWith rb callNative cx.fns s fv vs; (s, env, r)
         | r => r
       | (s, env, .ret v) => (s, env, .ret v)
       | (s, env, .exit) => (s, env, .exit)
@@ -274,15 +544,15 @@ mutual
       | (s, env, .unspecified w) => (s, env, .unspecified w)
       | (s, env, .outOfFuel) => (s, env, .outOfFuel)
     | .callNative name args =>
-      match evalList cx fuel env s args with
-      | (s, env, .ok vs) => let (s, r) := callNative cx fuel s name vs; (s, env, r)
+      match evalList env s args with
+      | (s, env, .ok vs) => let (s, r) := callNative s name vs; (s, env, r)
       | (s, env, .ret v) => (s, env, .ret v)
       | (s, env, .exit) => (s, env, .exit)
       | (s, env, .err e) => (s, env, .err e)
       | (s, env, .unspecified w) => (s, env, .unspecified w)
       | (s, env, .outOfFuel) => (s, env, .outOfFuel)
     | .array cards =>
-      match evalList cx fuel env s cards with
+      match evalList env s cards with
       | (s, env, .ok vs) =>
         let es := vs.zipIdx.map (fun (v, i) => (Val.int (Int64.ofNat i), v))
         let (s, t) := newObj s (.table es)
@@ -299,188 +569,8 @@ mutual
       | _ => (s, env, .unspecified "composite card in value position")
     | _ => (s, env, .unspecified ("statement card in value position: " ++ (c.toTok.take 20).toString))
 
-  partial def evalList (cx : Ctx) (fuel : Nat) (env : Env) (s : St) : List Card → St × Env × Res (List Val)
-    | [] => (s, env, .ok [])
-    | c :: cs =>
-      match eval cx fuel env s c with
-      | (s, env, .ok v) =>
-        match evalList cx fuel env s cs with
-        | (s, env, .ok vs) => (s, env, .ok (v :: vs))
-        | r => r
-      | (s, env, .ret v) => (s, env, .ret v)
-      | (s, env, .exit) => (s, env, .exit)
-      | (s, env, .err e) => (s, env, .err e)
-      | (s, env, .unspecified w) => (s, env, .unspecified w)
-      | (s, env, .outOfFuel) => (s, env, .outOfFuel)
-
-  partial def readVar (cx : Ctx) (fuel : Nat) (env : Env) (s : St) (name : String) : St × Env × Res Val :=
-    let (v, props) := match name.splitOn "." with
-      | [] => ("", [])
-      | v :: ps => (v, ps.filter (fun (q : String) => !q.isEmpty))
-    if v.isEmpty then (s, env, .unspecified "empty variable name (compile error)") else
-    let base : Res Val :=
-      match lookupEnv env v with
-      | some c => .ok (s.cells[c]?.getD .nil)
-      | none =>
-        match lookupEnv cx.outer v with
-        | some c => .ok (s.cells[c]?.getD .nil)
-        | none =>
-          match s.globals.find? (fun (p : String × Val) => p.1 == v) with
-          | some (_, x) => .ok x
-          | none => .unspecified "read of a global that was never written"
-    match base with
-    | .ok x =>
-      let r := props.foldl (fun (acc : St × Res Val) (p : String) =>
-        match acc with
-        | (s, .ok tv) =>
-          match asTable s tv with
-          | some (_, es) =>
-            let (s, k) := newObj s (.str p.toUTF8.toList)
-            (s, .ok (tableGet s es k))
-          | none => (s, .err .invalidArgument)
-        | other => other) (s, .ok x)
-      (r.1, env, r.2)
-    | r => (s, env, r)
-
-  /-- call a function of the program (`.inl idx`) or a closure (`.inr`) with evaluated arguments -/
-  partial def callFn (cx : Ctx) (fuel : Nat) (s : St)
-      (f : Sum Nat (List String × List Card × Env × Nat)) (args : List Val) : St × Res Val :=
-    let (params, cards, outer, home) := match f with
-      | .inl i => match cx.fns[i]? with
-        | some d => (d.params, d.cards, ([] : Env), i)
-        | none => ([], [], [], 0)
-      | .inr (ps, cs, e, h) => (ps, cs, e, h)
-    let (s, scope) := bindArgs s params args
-    let cx' : Ctx := { cx with home := home, outer := outer }
-    match execList cx' fuel [scope] s cards with
-    | (s, _, .ok ()) => (s, .ok .nil)
-    | (s, _, .ret v) => (s, .ok v)
-    | (s, _, .exit) => (s, .exit)
-    | (s, _, .err e) => (s, .err e)
-    | (s, _, .unspecified w) => (s, .unspecified w)
-    | (s, _, .outOfFuel) => (s, .outOfFuel)
-
-  partial def callValue (cx : Ctx) (fuel : Nat) (s : St) (fv : Val) (args : List Val) : St × Res Val :=
-    match fv with
-    | .obj a =>
-      match s.objs[a]? with
-      | some (.fn i) =>
-        match cx.fns[i]? with
-        | some d =>
-          if d.params.length != args.length then (s, .unspecified "dynamic call with the wrong number of arguments")
-          else callFn cx fuel s (.inl i) args
-        | none => (s, .unspecified "bad function index")
-      | some (.closure ps cs e h) =>
-        if ps.length != args.length then (s, .unspecified "dynamic call with the wrong number of arguments")
-        else callFn cx fuel s (.inr (ps, cs, e, h)) args
-      | some (.native n) => callNative cx fuel s n args
-      | _ => (s, .err .invalidArgument)
-    | _ => (s, .err .invalidArgument)
-
-  /-- host functions (the harness' fixed family and the stdlib natives, at specification level) -/
-  partial def callNative (cx : Ctx) (fuel : Nat) (s : St) (name : String) (args : List Val) : St × Res Val :=
-    let wrap (r : St × Res Val) : St × Res Val := match r with
-      | (s, .err e) => (s, .err (.taskFailure name e))
-      | other => other
-    let arity : Option Nat := match name with
-      | "__min" | "__max" | "__sort" | "sum2" | "callback" => some 2
-      | "__to_array" | "log" | "strlen" | "mktable" => some 1
-      | "three" => some 3 | "four" => some 4 | "fail" => some 0
-      | _ => none
-    match arity with
-    | none => (s, .err .procedureNotFound)
-    | some n =>
-    if args.length != n then (s, .unspecified "native called with the wrong number of arguments") else
-    let toI (s : St) (v : Val) : Int64 := OVal.toI64 F (deepV s v)
-    match name, args with
-    | "log", [v] => ({ s with log := s.log ++ ["log " ++ (deepV s v).toTok] }, .ok .nil)
-    | "sum2", [a, b] =>
-      ({ s with log := s.log ++ ["sum2 " ++ toString (toI s a).toInt ++ " " ++ toString (toI s b).toInt] },
-       .ok (.int (toI s a + toI s b)))
-    | "fail", [] => wrap (s, .err .invalidArgument)
-    | "strlen", [v] =>
-      match v with
-      | .obj a => match s.objs[a]? with
-        | some (.str b) => (s, .ok (.int (Int64.ofNat b.length)))
-        | _ => wrap (s, .err .invalidArgument)
-      | _ => wrap (s, .err .invalidArgument)
-    | "three", [a, b, c] =>
-      ({ s with log := s.log ++ ["three " ++ (deepV s a).toTok ++ " " ++ (deepV s b).toTok ++ " " ++ (deepV s c).toTok] }, .ok a)
-    | "four", [a, b, c, d] =>
-      ({ s with log := s.log ++ ["four " ++ (deepV s a).toTok ++ " " ++ (deepV s b).toTok ++ " " ++ (deepV s c).toTok ++ " " ++ (deepV s d).toTok] }, .ok d)
-    | "mktable", [v] =>
-      let (s, k) := newObj s (.str "n".toUTF8.toList)
-      let (s, t) := newObj s (.table [(k, v)])
-      (s, .ok t)
-    | "callback", [f, x] =>
-      match wrap (callValue cx fuel s f [x]) with
-      | (s, .ok r) => ({ s with log := s.log ++ ["callback -> " ++ (deepV s r).toTok] }, .ok r)
-      | other => other
-    | "__to_array", [t] =>
-      match asTable s t with
-      | none => (s, .ok t)
-      | some (_, es) =>
-        let (s, r) := newObj s (.table (es.zipIdx.map (fun (e, i) => (Val.int (Int64.ofNat i), e.2))))
-        (s, .ok r)
-    | "__sort", [t, keyFn] =>
-      match asTable s t with
-      | none => (s, .ok t)
-      | some (_, es) =>
-        let keyed := es.foldl (fun (acc : St × Res (List (Val × Val × Val))) (k, v) =>
-          match acc with
-          | (s, .ok l) =>
-            match wrap (callValue cx fuel s keyFn [v, k]) with
-            | (s, .ok key) => (s, .ok (l ++ [(key, k, v)]))
-            | (s, .ret v) => (s, .ret v) | (s, .exit) => (s, .exit) | (s, .err e) => (s, .err e)
-            | (s, .unspecified w) => (s, .unspecified w) | (s, .outOfFuel) => (s, .outOfFuel)
-          | other => other) (s, .ok [])
-        match keyed with
-        | (s, .ok l) =>
-          let sorted := l.mergeSort (fun a b => match OVal.vcmp F (deepV s a.1) (deepV s b.1) with
-            | some .gt => false | _ => true)
-          let (s, r) := newObj s (.table (sorted.foldl (fun es (_, k, v) => tableSet s es k v) []))
-          (s, .ok r)
-        | (s, .ret v) => (s, .ret v) | (s, .exit) => (s, .exit) | (s, .err e) => (s, .err e)
-        | (s, .unspecified w) => (s, .unspecified w) | (s, .outOfFuel) => (s, .outOfFuel)
-    | nm, [t, keyFn] =>
-      if nm != "__min" && nm != "__max" then (s, .err .procedureNotFound) else
-      match asTable s t with
-      | none => (s, .ok t)
-      | some (_, es) =>
-        match es with
-        | [] => (s, .ok .nil)
-        | _ =>
-          let keyed := es.foldl (fun (acc : St × Res (List (Val × Val × Val))) (k, v) =>
-            match acc with
-            | (s, .ok l) =>
-              match wrap (callValue cx fuel s keyFn [v, k]) with
-              | (s, .ok key) => (s, .ok (l ++ [(key, k, v)]))
-              | (s, .ret v) => (s, .ret v) | (s, .exit) => (s, .exit) | (s, .err e) => (s, .err e)
-              | (s, .unspecified w) => (s, .unspecified w) | (s, .outOfFuel) => (s, .outOfFuel)
-            | other => other) (s, .ok [])
-          match keyed with
-          | (s, .ok l) =>
-            -- the first entry whose key is strictly better than every earlier best
-            let best := l.foldl (fun (b : Option (Val × Val × Val)) e =>
-              match b with
-              | none => some e
-              | some b =>
-                let better := if nm == "__min" then OVal.vlt F (deepV s e.1) (deepV s b.1)
-                              else OVal.vlt F (deepV s b.1) (deepV s e.1)
-                if better then some e else some b) none
-            match best with
-            | some (_, k, v) =>
-              let (s, ks) := newObj s (.str "key".toUTF8.toList)
-              let (s, vs) := newObj s (.str "value".toUTF8.toList)
-              let (s, row) := newObj s (.table [(ks, k), (vs, v)])
-              (s, .ok row)
-            | none => (s, .ok .nil)
-          | (s, .ret v) => (s, .ret v) | (s, .exit) => (s, .exit) | (s, .err e) => (s, .err e)
-          | (s, .unspecified w) => (s, .unspecified w) | (s, .outOfFuel) => (s, .outOfFuel)
-    | _, _ => (s, .err .procedureNotFound)
-
   /-- execute a statement card (net effect on the value stack: none) -/
-  partial def exec (cx : Ctx) (fuel : Nat) (env : Env) (s : St) (c : Card) : St × Env × Res Unit :=
+  def exec (cx : Ctx) (fuel : Nat) (env : Env) (s : St) (c : Card) : St × Env × Res Unit :=
     match fuel with
     | 0 => (s, env, .outOfFuel)
     | fuel+1 =>
@@ -495,7 +585,7 @@ mutual
     match c with
     | .comment _ => (s, env, .ok ())
     | .abort => (s, env, .exit)
-    | .composite _ cards => execList cx fuel env s cards
+    | .composite _ cards => execListWith (exec cx fuel) env s cards
     | .un .ret v => lift (eval cx fuel env s v) (fun s env x => (s, env, .ret x))
     | .setGlobalVar name v =>
       lift (eval cx fuel env s v) (fun s env x =>
@@ -521,7 +611,7 @@ mutual
               | [] => (s, [[(name, c)]], .ok ())
         | parts =>
           let tname := ".".intercalate parts.dropLast
-          match readVar cx fuel env s tname with
+          match readVar cx env s tname with
           | (s, env, .ok tv) =>
             match asTable s tv with
             | some (a, es) =>
@@ -564,83 +654,49 @@ mutual
         else (s, env, .ok ()))
     | .repeat i n body =>
       lift (eval cx fuel env s n) (fun s env nv =>
-        -- `counter < n` is re-evaluated with the language's `<` before every iteration
-        let rec loop (gas : Nat) (k : Int64) (s : St) : St × Res Unit :=
-          match gas with
-          | 0 => (s, .outOfFuel)
-          | gas+1 =>
-            if OVal.vlt F (.int k) (deepV s nv) then
-              let (s, scope) := match i with
-                | some var => let (s, c) := newCell s (.int k); (s, [(var, c)])
-                | none => (s, [])
-              match exec cx fuel (scope :: env) s body with
-              | (s, _, .ok ()) => loop gas (k + 1) s
-              | (s, _, .ret v) => (s, .ret v)
-              | (s, _, .exit) => (s, .exit)
-              | (s, _, .err e) => (s, .err e)
-              | (s, _, .unspecified w) => (s, .unspecified w)
-              | (s, _, .outOfFuel) => (s, .outOfFuel)
-            else (s, .ok ())
-        let (s, r) := loop fuel 0 s
+        let (s, r) := repeatLoop (fun scope s => exec cx fuel (scope :: env) s body) i nv fuel 0 s
         (s, env, r))
     | .forEach i k v iterable body =>
       lift (eval cx fuel env s iterable) (fun s env tv =>
         match asTable s tv with
         | none => (s, env, .err .invalidArgument)
         | some (a, _) =>
-          let rec floop (gas : Nat) (idx : Nat) (s : St) : St × Res Unit :=
-            match gas with
-            | 0 => (s, .outOfFuel)
-            | gas+1 =>
-              -- the table is looked at afresh before every iteration
-              match s.objs[a]? with
-              | some (.table es) =>
-                match es[idx]? with
-                | none => (s, .ok ())
-                | some (key, val) =>
-                  let bindOne (acc : St × List (String × Nat)) (nm : Option String) (x : Val) :=
-                    match nm with
-                    | some n => let (s, c) := newCell acc.1 x; (s, acc.2 ++ [(n, c)])
-                    | none => acc
-                  let acc := bindOne (s, []) v val
-                  let acc := bindOne acc k key
-                  let acc := bindOne acc i (.int (Int64.ofNat idx))
-                  match exec cx fuel (acc.2 :: env) acc.1 body with
-                  | (s, _, .ok ()) => floop gas (idx + 1) s
-                  | (s, _, .ret v) => (s, .ret v)
-                  | (s, _, .exit) => (s, .exit)
-                  | (s, _, .err e) => (s, .err e)
-                  | (s, _, .unspecified w) => (s, .unspecified w)
-                  | (s, _, .outOfFuel) => (s, .outOfFuel)
-              | _ => (s, .err .assertionError)
-          let (s, r) := floop fuel 0 s
+          let (s, r) := forEachLoop (fun scope s => exec cx fuel (scope :: env) s body) i k v a fuel 0 s
           (s, env, r))
     | other =>
-      -- a value-producing card in statement position: outside the well-scoped fragment
-      (s, env, .unspecified ("value card in statement position: " ++ (other.toTok.take 24).toString))
-
-  partial def execList (cx : Ctx) (fuel : Nat) (env : Env) (s : St) : List Card → St × Env × Res Unit
-    | [] => (s, env, .ok ())
-    | c :: cs =>
-      match exec cx fuel env s c with
-      | (s, env, .ok ()) => execList cx fuel env s cs
-      | r => r
+      -- a value-producing card in statement position: it is evaluated and its value discarded
+      -- (recorded in `stmtValue`: outside the well-scoped fragment)
+      lift (eval cx fuel env s other) (fun s env _ => ({ s with stmtValue := true }, env, .ok ()))
 end
 
-/-- flatten a module tree into the program's functions (with the injected `std`) -/
-partial def flattenFns (m : Module) (ns : List String) : List FnDef :=
-  let imports := (m.imports.filterMap (fun imp =>
-    match imp.splitOn "." with
-    | [] | [_] => none
-    | parts => some (parts.getLast!, imp)))
-  m.functions.map (fun (n, f) =>
-    { fullName := joinNs ns n, ns := ns, imports := imports, params := f.arguments, cards := f.cards : FnDef }) ++
-  m.submodules.flatMap (fun (n, s) => flattenFns s (ns ++ [n]))
+/-- execute a list of statement cards -/
+def execList (cx : Ctx) (fuel : Nat) : Env → St → List Card → St × Env × Res Unit :=
+  execListWith (exec cx fuel)
+
+mutual
+  /-- the functions of a module and (recursively) of its submodules, in declaration order -/
+  def flattenFns : Module → List String → List FnDef
+    | .mk subs fns imps, ns =>
+      let imports := (imps.filterMap (fun imp =>
+        match imp.splitOn "." with
+        | [] | [_] => none
+        | parts => some (parts.getLast!, imp)))
+      fns.map (fun (n, f) =>
+        { fullName := joinNs ns n, ns := ns, imports := imports, params := f.arguments, cards := f.cards : FnDef }) ++
+      flattenSubs subs ns
+  def flattenSubs : List (String × Module) → List String → List FnDef
+    | [], _ => []
+    | (n, s) :: rest, ns => flattenFns s (ns ++ [n]) ++ flattenSubs rest ns
+end
 
 structure Outcome where
   result : String
   globals : List (String × OVal)
   log : List String
+  /-- a value-producing card was executed in statement position -/
+  stmtValue : Bool := false
+  /-- some call supplied fewer arguments than its callee declares -/
+  fewArgs : Bool := false
 
 /-- run `main` of a program -/
 def run (m : Module) (std : Module) (fuel : Nat) : Outcome :=
@@ -658,6 +714,7 @@ def run (m : Module) (std : Module) (fuel : Nat) : Outcome :=
       | .err e => "err:" ++ e.name
       | .unspecified w => "unspecified:" ++ w
       | .outOfFuel => "unspecified:out of fuel"
-    { result := res, globals := s.globals.map (fun (n, v) => (n, deepV s v)), log := s.log }
+    { result := res, globals := s.globals.map (fun (n, v) => (n, deepV s v)), log := s.log,
+      stmtValue := s.stmtValue, fewArgs := s.fewArgs }
 
 end Cao.Sem
